@@ -116,7 +116,7 @@ m("publish-connects-twice", "operators/publish.rs", "pub fn new(source: Observab
 m("ref_count-never-disconnects", "operators/ref_count.rs", "          if let Some(sbsc) = sbsc {\n            sbsc.unsubscribe();\n          }\n        }\n      });\n    }", "          let _ = sbsc;\n        }\n      });\n    }", ["C13"])
 m("replay-connects-on-every-subscriber", "operators/replay.rs", "      if count == 1 {\n        // connect", "      if count >= 1 {\n        // connect", ["C13"])
 # ---- C14
-m("take-counter-shared", "operators/take.rs", "    let count = self.count;\n    Observable::<Item>::create(move |s| {\n      let n = Arc::new(RwLock::new(0));", "    let count = self.count;\n    let n = Arc::new(RwLock::new(0));\n    Observable::<Item>::create(move |s| {\n      let n = Arc::clone(&n);", ["C14", "C04"])
+m("take-counter-shared", "operators/take.rs", "    let count = self.count;\n\n    Observable::<Item>::create(move |s| {\n      let n = Arc::new(RwLock::new(0));", "    let count = self.count;\n    let n = Arc::new(RwLock::new(0));\n    Observable::<Item>::create(move |s| {\n      let n = Arc::clone(&n);", ["C14", "C04"])
 m("distinct-last-shared", "operators/distinct_until_changed.rs", "    Observable::<Item>::create(move |s| {\n      let last = Arc::new(RwLock::new(Option::<Item>::None));", "    let last = Arc::new(RwLock::new(Option::<Item>::None));\n    Observable::<Item>::create(move |s| {\n      let last = Arc::clone(&last);", ["C14"])
 m("skip-counter-shared", "operators/skip.rs", "    Observable::<Item>::create(move |s| {\n      let n = Arc::new(RwLock::new(0));", "    let n = Arc::new(RwLock::new(0));\n    Observable::<Item>::create(move |s| {\n      let n = Arc::clone(&n);", ["C14"])
 # ---- C17
